@@ -313,6 +313,20 @@ class TermBank:
     def shl(self, a, k):
         return ((Z,) * k + a[: len(a) - k]) if k < len(a) else (Z,) * len(a)
 
+    def pred(self, kind, a, b):
+        """1-bit predicate node over two lanes: eq / carry (of a+b) are commutative (operands sorted), ult / borrow are not"""
+        if kind in ("eq", "carry") and b < a:
+            a, b = b, a
+        if kind == "eq" and a == b:
+            return (O,)
+        if self.is_const(a) and self.is_const(b):
+            x, y, w = self.cval(a), self.cval(b), len(a)
+            v = {"eq": x == y, "carry": x + y >= (1 << w), "ult": x < y, "borrow": x < y}[kind]
+            return (O if v else Z,)
+        if kind == "borrow":
+            kind = "ult"
+        return self.opaque("p:" + kind, 1, (a, b))
+
     def opaque(self, name, w, args):
         t = self.intern(("op", w, name, tuple(args)))
         return tuple((t, i) for i in range(w))
